@@ -84,6 +84,17 @@ where
     I: Iterator<Item = T> + Clone + std::fmt::Debug,
 {
     let want_fmt = !liar && (cx.armed == Prop::C19 || cx.armed == Prop::C06);
+    // iterators that yield the left operand's own elements must also *print* those: while such
+    // an iterator is rendered, a tracked key's Debug shows which object it is
+    let show_ids = KD::TRACKED && from_left.is_some() && want_fmt;
+    struct IdGuard;
+    impl Drop for IdGuard {
+        fn drop(&mut self) {
+            tl::debug_ids(false);
+        }
+    }
+    let _guard = IdGuard;
+    tl::debug_ids(show_ids);
     let mut it = match lib::<KD, _>(cx, || mk()) {
         Ok(i) => i,
         Err(p) => {
@@ -137,6 +148,7 @@ where
             break;
         }
     }
+    tl::debug_ids(false);
     if liar {
         return;
     }
@@ -186,7 +198,7 @@ where
             }
             let ok_shape = out.starts_with('[') && out.ends_with(']');
             let mut g: Vec<String> = if ok_shape { split_top(&out[1..out.len() - 1]) } else { vec![] };
-            let mut w: Vec<String> = ys[i.min(total)..].iter().map(|y| KD::kdbg(y.raw)).collect();
+            let mut w: Vec<String> = ys[i.min(total)..].iter().map(|y| if show_ids { format!("k{}#{}", y.raw, y.kid) } else { KD::kdbg(y.raw) }).collect();
             g.sort();
             w.sort();
             cx.chk(P19, ok_shape && g == w, "iterator-debug", || format!("Debug of {name} after {i} items prints {out}, the items not yet yielded are {w:?}"));
